@@ -1,10 +1,11 @@
 package main
 
 import (
+	"net"
+	"reflect"
 	"bytes"
 	"os"
 	"os/exec"
-	"context"
 	"fmt"
 	"sort"
 	"strconv"
@@ -14,7 +15,6 @@ import (
 	"time"
 
 	frugal "github.com/Workiva/frugal/lib/go"
-	"github.com/apache/thrift/lib/go/thrift"
 	natsd "github.com/nats-io/nats-server/v2/server"
 	"github.com/nats-io/nats.go"
 )
@@ -45,7 +45,8 @@ import (
 //   * Stop and Serve return nil within the watchdog, also when q < burst.
 
 const (
-	c20Watchdog   = 5 * time.Second
+	c20Watchdog   = 30 * time.Second // only classifies a hang; generous, the machine may be heavily loaded
+	c20StallFor   = 10600 * time.Millisecond // longer than nats.go's 10 s flush timeout
 	c20LateExtras = 2 // requests always published after Stop returned
 )
 
@@ -55,6 +56,9 @@ var (
 	c20BrokerErr  error
 	c20HookOnce   sync.Once
 	c20Runs       sync.Map // run index -> *c20Run
+	c20Servers    sync.Map // address of the fNatsServer -> *c20Run
+	c20DrainSteps = map[string]int{"natsserver.drain.begin": 1, "natsserver.drain.unsubscribed": 2,
+		"natsserver.drain.flushed": 3, "natsserver.drain.barrier": 4, "natsserver.serve.drained": 5}
 	c20NextRun    uint64
 )
 
@@ -66,7 +70,7 @@ func c20Broker() (string, error) {
 			return
 		}
 		go s.Start()
-		if !s.ReadyForConnections(10 * time.Second) {
+		if !s.ReadyForConnections(60 * time.Second) {
 			c20BrokerErr = fmt.Errorf("in-process nats-server not ready")
 			return
 		}
@@ -78,6 +82,15 @@ func c20Broker() (string, error) {
 func c20InstallHook() {
 	c20HookOnce.Do(func() {
 		frugal.SetVerifYield(func(point string, id uint64) {
+			if step, isDrain := c20DrainSteps[point]; isDrain {
+				if v, ok := c20Servers.Load(id); ok {
+					run := v.(*c20Run)
+					if run.cfg.faultStep() == step && run.inject != nil {
+						run.inject(point)
+					}
+				}
+				return
+			}
 			v, ok := c20Runs.Load(id / 1000)
 			if !ok {
 				return
@@ -92,6 +105,8 @@ func c20InstallHook() {
 				tok = "D"
 			case "natsserver.replied":
 				tok = "P"
+			case "natsserver.dropped":
+				tok = "X"
 			default:
 				return
 			}
@@ -109,20 +124,54 @@ type c20Cfg struct {
 	delayUs int   // pause between reaching the stop position and the call of Stop()
 	jitUs   int   // schedule perturbation: pseudo-random pauses up to this long at the yield points (0 = none)
 	pub2    int   // requests a SECOND client connection streams (unflushed) across the Stop() call (0 = none)
-	durs    []int // handler duration per request, in units of 100 µs
+	fault   string // "-" or <kind><step>: kind c = the application closes the server's connection, b = the broker
+	//                goes away (the connection gives up after two quick reconnect attempts), s = the link to the
+	//                broker stalls for longer than the 10 s flush timeout, then recovers; step 0 = just before
+	//                Stop() is called, 1 = before sub.Drain, 2 = before conn.Flush, 3 = before conn.Barrier,
+	//                4 = before the wait on the barrier, 5 = after Stop has its result, before close(workC),
+	//                6 = from another goroutine a pseudo-random 0..400 µs after Stop() was called
+	durs    []int  // handler duration per request, in units of 100 µs
+	kinds   []byte // what the handler does per request: r small reply (default), x declared exception,
+	//                e undeclared error, u / a / o reply one byte under / exactly at / one byte over the NATS limit
+}
+
+func (c c20Cfg) faultKind() byte {
+	if len(c.fault) == 2 {
+		return c.fault[0]
+	}
+	return 0
+}
+func (c c20Cfg) faultStep() int {
+	if len(c.fault) == 2 {
+		return int(c.fault[1] - '0')
+	}
+	return -1
+}
+func (c c20Cfg) kindOf(i int) byte {
+	if i < len(c.kinds) && c.kinds[i] != 0 {
+		return c.kinds[i]
+	}
+	return 'r'
 }
 
 func (c c20Cfg) line() string {
 	ds := make([]string, len(c.durs))
 	for i, d := range c.durs {
 		ds[i] = strconv.Itoa(d)
+		if k := c.kindOf(i); k != 'r' {
+			ds[i] += string(k)
+		}
 	}
-	return fmt.Sprintf("nsrun %d %d %d %d %d %d %d %s", c.w, c.q, c.stopPos, c.gapUs, c.delayUs, c.jitUs, c.pub2, strings.Join(ds, ","))
+	f := c.fault
+	if f == "" {
+		f = "-"
+	}
+	return fmt.Sprintf("nsrun %d %d %d %d %d %d %d %s %s", c.w, c.q, c.stopPos, c.gapUs, c.delayUs, c.jitUs, c.pub2, f, strings.Join(ds, ","))
 }
 
 func c20ParseCfg(args []string) (c20Cfg, bool) {
 	var c c20Cfg
-	if len(args) != 8 {
+	if len(args) != 9 {
 		return c, false
 	}
 	var err [7]error
@@ -141,12 +190,21 @@ func c20ParseCfg(args []string) (c20Cfg, bool) {
 	if c.w < 1 || c.w > 64 || c.q < 0 || c.q > 1024 || c.stopPos < 0 || c.gapUs < 0 || c.gapUs > 100000 || c.delayUs < 0 || c.delayUs > 100000 || c.jitUs < 0 || c.jitUs > 100000 || c.pub2 < 0 || c.pub2 > 500 {
 		return c, false
 	}
-	for _, t := range strings.Split(args[7], ",") {
+	c.fault = args[7]
+	if c.fault != "-" && !(len(c.fault) == 2 && strings.IndexByte("cbs", c.fault[0]) >= 0 && c.fault[1] >= '0' && c.fault[1] <= '6') {
+		return c, false
+	}
+	for _, t := range strings.Split(args[8], ",") {
+		k := byte('r')
+		if n := len(t); n > 0 && strings.IndexByte("xeuao", t[n-1]) >= 0 {
+			k, t = t[n-1], t[:n-1]
+		}
 		d, e := strconv.Atoi(t)
-		if e != nil || d < 0 || d > 20000 {
+		if e != nil || d < 0 || d > 20000 || (len(t) > 0 && (t[0] == '+' || t[0] == '-')) {
 			return c, false
 		}
 		c.durs = append(c.durs, d)
+		c.kinds = append(c.kinds, k)
 	}
 	if len(c.durs) == 0 || len(c.durs) > 400 {
 		return c, false
@@ -170,7 +228,31 @@ type c20Run struct {
 	replies    []int // replies received by the client per request
 	noResp     []int // "no responders" statuses the broker sent for request i
 	badReply   []string
+
+	serverID uint64         // address of the fNatsServer (id of the drain yield points)
+	inject   func(why string) // performs the configured fault (once)
 }
+
+// c20Work: what the handler asks of the run
+func (r *c20Run) begin(i int) (byte, time.Duration, bool) {
+	r.mu.Lock()
+	defer r.mu.Unlock()
+	if i < 0 || i >= len(r.procCount) {
+		return 0, 0, false
+	}
+	r.procCount[i]++
+	d := 0
+	if i < len(r.cfg.durs) {
+		d = r.cfg.durs[i]
+	}
+	return r.cfg.kindOf(i), time.Duration(d) * 100 * time.Microsecond, true
+}
+func (r *c20Run) end(i int) {
+	r.mu.Lock()
+	r.procDoneAt[i] = len(r.events)
+	r.mu.Unlock()
+}
+func (r *c20Run) bigLen(rid, opid string, kind byte) int { return c20BigLen(rid, opid, kind) }
 
 func (r *c20Run) log(tok string) {
 	r.mu.Lock()
@@ -202,64 +284,6 @@ func (r *c20Run) clock() int {
 	return len(r.events)
 }
 
-// c20Proc is the hand-written FProcessor: reads the request header, records the request id it
-// carries, works for the configured duration and writes a reply carrying the same id.
-type c20Proc struct{ run *c20Run }
-
-func (p *c20Proc) AddMiddleware(frugal.ServiceMiddleware)    {}
-func (p *c20Proc) Annotations() map[string]map[string]string { return nil }
-func (p *c20Proc) Process(in, out *frugal.FProtocol) error {
-	fctx, err := in.ReadRequestHeader()
-	if err != nil {
-		return err
-	}
-	rid, _ := fctx.RequestHeader("rid")
-	i, err := strconv.Atoi(rid)
-	r := p.run
-	if err != nil || i < 0 || i >= len(r.procCount) {
-		return fmt.Errorf("c20: request without a usable rid header %q", rid)
-	}
-	r.mu.Lock()
-	r.procCount[i]++
-	d := 0
-	if i < len(r.cfg.durs) {
-		d = r.cfg.durs[i]
-	}
-	r.mu.Unlock()
-	if d > 0 {
-		time.Sleep(time.Duration(d) * 100 * time.Microsecond)
-	}
-	fctx.AddResponseHeader("rid", rid)
-	if err := out.WriteResponseHeader(fctx); err != nil {
-		return err
-	}
-	bg := context.Background()
-	if err := out.WriteMessageBegin(bg, "c20", thrift.REPLY, 0); err != nil {
-		return err
-	}
-	if err := out.WriteMessageEnd(bg); err != nil {
-		return err
-	}
-	if err := out.Flush(bg); err != nil {
-		return err
-	}
-	r.mu.Lock()
-	r.procDoneAt[i] = len(r.events)
-	r.mu.Unlock()
-	return nil
-}
-
-func c20Frame(i int) []byte {
-	hdr := frugal.VerifMarshalHeaders(map[string]string{"_opid": strconv.Itoa(i + 1), "rid": strconv.Itoa(i)})
-	tr := thrift.NewTMemoryBuffer()
-	pr := thrift.NewTBinaryProtocolConf(tr, nil)
-	bg := context.Background()
-	pr.WriteMessageBegin(bg, "c20", thrift.CALL, 0)
-	pr.WriteMessageEnd(bg)
-	pr.Flush(bg)
-	return frugal.VerifPrependFrameSize(append(hdr, tr.Bytes()...))
-}
-
 type c20Result struct {
 	trace  string // the server-side event log, comma separated
 	end    string // observable at the end of the run
@@ -284,7 +308,37 @@ func c20Execute(cfg c20Cfg) c20Result {
 	// the watchdog allows for the work the configuration asks for: all handler time, sequentially
 	wd := c20Watchdog
 	for _, d := range cfg.durs {
-		wd += time.Duration(d) * 100 * time.Microsecond
+		wd += 3 * time.Duration(d) * 100 * time.Microsecond
+	}
+	fk := cfg.faultKind()
+	if fk == 's' {
+		wd += c20StallFor + 2*time.Second // conn.Flush gives up after 10 s
+	}
+	// broker and link of the server's connection
+	serverURL := url
+	shutdownOwnBroker := func() {}
+	if fk == 'b' { // a broker of its own, so that it can go away
+		b, e := natsd.NewServer(&natsd.Options{Host: "127.0.0.1", Port: -1, NoLog: true, NoSigs: true})
+		if e != nil {
+			return fail("own broker: " + e.Error())
+		}
+		go b.Start()
+		if !b.ReadyForConnections(60 * time.Second) {
+			return fail("own broker not ready")
+		}
+		var once sync.Once
+		shutdownOwnBroker = func() { once.Do(b.Shutdown) } // nats-server does not like two concurrent Shutdown calls
+		defer shutdownOwnBroker()
+		url, serverURL = b.ClientURL(), b.ClientURL()
+	}
+	var relay *c20Relay
+	if fk == 's' {
+		r, e := newC20Relay(strings.TrimPrefix(url, "nats://"))
+		if e != nil {
+			return fail("relay: " + e.Error())
+		}
+		defer r.close()
+		relay, serverURL = r, r.url()
 	}
 	stopPos := cfg.stopPos
 	if stopPos > n {
@@ -299,19 +353,31 @@ func c20Execute(cfg c20Cfg) c20Result {
 	c20Runs.Store(run.idx, run)
 	defer c20Runs.Delete(run.idx)
 
-	sconn, err := nats.Connect(url, nats.Name("c20-server"))
+	sopts := []nats.Option{nats.Name("c20-server")}
+	var faulted int32
+	if fk == 'b' {
+		// the broker is gone for good: two quick reconnect attempts, and nobody else's broker that happens
+		// to get the freed port may answer them
+		sopts = append(sopts, nats.MaxReconnects(2), nats.ReconnectWait(5*time.Millisecond),
+			nats.SetCustomDialer(&c20Dialer{gone: &faulted}))
+	}
+	sconn, err := nats.Connect(serverURL, sopts...)
 	if err != nil {
 		return fail("server connection: " + err.Error())
 	}
 	defer sconn.Close()
-	cconn, err := nats.Connect(url, nats.Name("c20-client"))
+	copts := []nats.Option{nats.Name("c20-client")}
+	if fk == 'b' { // the clients share the broker that goes away: they must fail fast then
+		copts = append(copts, nats.NoReconnect())
+	}
+	cconn, err := nats.Connect(url, copts...)
 	if err != nil {
 		return fail("client connection: " + err.Error())
 	}
 	defer cconn.Close()
 	var c2conn *nats.Conn
 	if cfg.pub2 > 0 {
-		if c2conn, err = nats.Connect(url, nats.Name("c20-client2")); err != nil {
+		if c2conn, err = nats.Connect(url, copts...); err != nil {
 			return fail("second client connection: " + err.Error())
 		}
 		defer c2conn.Close()
@@ -335,13 +401,24 @@ func c20Execute(cfg c20Cfg) c20Result {
 		}
 		run.replies[i]++
 		atomic.AddInt64(&gotReplies, 1)
-		if len(m.Data) < 4 {
-			run.badReply = append(run.badReply, fmt.Sprintf("reply to %d is shorter than a frame", i))
+		rp, e := c20ParseReply(m.Data)
+		if e != nil {
+			run.badReply = append(run.badReply, fmt.Sprintf("reply to %d does not parse: %v", i, e))
 			return
 		}
-		h, e := frugal.VerifGetHeadersFromFrame(m.Data[4:])
-		if e != nil || h["rid"] != strconv.Itoa(i) || h["_opid"] != strconv.Itoa(i+1) {
-			run.badReply = append(run.badReply, fmt.Sprintf("reply on the subject of request %d carries rid=%q opid=%q", i, h["rid"], h["_opid"]))
+		kind := cfg.kindOf(i)
+		// an EXCEPTION written by sendError carries the response headers as they were before the handler ran
+		if rp.opid != c20OpID(i) || (rp.rid != strconv.Itoa(i) && !(rp.rid == "" && rp.exception && kind != 'o')) {
+			run.badReply = append(run.badReply, fmt.Sprintf("reply on the subject of request %d carries rid=%q opid=%q", i, rp.rid, rp.opid))
+		}
+		if want := c20ExpectedClass(kind); rp.class() != want {
+			run.badReply = append(run.badReply, fmt.Sprintf("request %d of kind %c was answered with %s, expected %s", i, kind, rp.class(), want))
+		}
+		if rp.frameLen > c20NatsLimit {
+			run.badReply = append(run.badReply, fmt.Sprintf("reply to %d is %d bytes, over the NATS limit", i, rp.frameLen))
+		}
+		if (kind == 'a' && rp.frameLen != c20NatsLimit) || (kind == 'u' && rp.frameLen != c20NatsLimit-1) {
+			run.badReply = append(run.badReply, fmt.Sprintf("harness: reply to %d of kind %c is %d bytes (calibration off)", i, kind, rp.frameLen))
 		}
 	}); err != nil {
 		return fail("client subscribe: " + err.Error())
@@ -350,8 +427,29 @@ func c20Execute(cfg c20Cfg) c20Result {
 		return fail("client flush: " + err.Error())
 	}
 
-	server := frugal.NewFNatsServerBuilder(sconn, &c20Proc{run}, binFactory, []string{reqSubject}).
+	server := frugal.NewFNatsServerBuilder(sconn, newC20Processor(run), binFactory, []string{reqSubject}).
 		WithWorkerCount(uint(cfg.w)).WithQueueLength(uint(cfg.q)).Build()
+	run.serverID = uint64(reflect.ValueOf(server).Pointer())
+	var injectOnce sync.Once
+	if fk != 0 {
+		run.inject = func(where string) {
+			injectOnce.Do(func() {
+				run.log("FC")
+				atomic.StoreInt32(&faulted, 1)
+				switch fk {
+				case 'c':
+					sconn.Close()
+				case 'b':
+					shutdownOwnBroker()
+				case 's':
+					relay.pause()
+					go func() { time.Sleep(c20StallFor); relay.resume() }()
+				}
+			})
+		}
+	}
+	c20Servers.Store(run.serverID, run)
+	defer c20Servers.Delete(run.serverID)
 	serveDone := make(chan error, 1)
 	go func() {
 		e := server.Serve()
@@ -359,10 +457,10 @@ func c20Execute(cfg c20Cfg) c20Result {
 		serveDone <- e
 	}()
 	// Serve started: wait until its subscription is known to the broker
-	deadline := time.Now().Add(2 * time.Second)
+	deadline := time.Now().Add(60 * time.Second)
 	for sconn.NumSubscriptions() < 1 {
 		if time.Now().After(deadline) {
-			return fail("Serve did not subscribe within 2s")
+			return fail("Serve did not subscribe within 60s")
 		}
 		time.Sleep(50 * time.Microsecond)
 	}
@@ -371,6 +469,10 @@ func c20Execute(cfg c20Cfg) c20Result {
 	}
 
 	stopSignal := make(chan struct{})
+	asyncInjected := make(chan struct{}) // closed once the asynchronous fault (step 6) has been injected
+	if cfg.faultStep() != 6 {
+		close(asyncInjected)
+	}
 	stopDone := make(chan error, 1)
 	stopReturned := make(chan struct{})
 	go func() {
@@ -378,9 +480,24 @@ func c20Execute(cfg c20Cfg) c20Result {
 		if cfg.delayUs > 0 {
 			time.Sleep(time.Duration(cfg.delayUs) * time.Microsecond)
 		}
+		if cfg.faultStep() == 0 {
+			run.inject("before Stop")
+		}
 		run.log("SC")
+		if cfg.faultStep() == 6 {
+			go func() {
+				defer close(asyncInjected)
+				h := NewRng(uint64(cfg.delayUs)*31 + uint64(n)*7 + uint64(cfg.q)).U64()
+				time.Sleep(time.Duration(h%400) * time.Microsecond)
+				run.inject("during Stop")
+			}()
+		}
 		e := server.Stop()
-		run.log("SR")
+		if e != nil {
+			run.log("SRE")
+		} else {
+			run.log("SR")
+		}
 		close(stopReturned)
 		stopDone <- e
 	}()
@@ -392,7 +509,7 @@ func c20Execute(cfg c20Cfg) c20Result {
 		if err := cconn.PublishRequest(reqSubject, replyPrefix+strconv.FormatUint(run.idx*1000+uint64(i), 10), c20Frame(i)); err != nil {
 			return err
 		}
-		if err := cconn.Flush(); err != nil {
+		if err := cconn.FlushTimeout(60 * time.Second); err != nil {
 			return err
 		}
 		run.mu.Lock()
@@ -434,7 +551,7 @@ func c20Execute(cfg c20Cfg) c20Result {
 				return
 			}
 			if (i-first)%16 == 15 { // now and then learn what the broker has for sure
-				if err := c2conn.Flush(); err != nil {
+				if err := c2conn.FlushTimeout(60 * time.Second); err != nil {
 					pub2Done <- err
 					return
 				}
@@ -448,7 +565,7 @@ func c20Execute(cfg c20Cfg) c20Result {
 				time.Sleep(10 * time.Microsecond)
 			}
 		}
-		pub2Done <- c2conn.Flush()
+		pub2Done <- c2conn.FlushTimeout(60 * time.Second)
 	}()
 
 	pubDone := make(chan error, 1)
@@ -485,7 +602,7 @@ func c20Execute(cfg c20Cfg) c20Result {
 
 	// watchdog on Stop and Serve
 	var complaints []string
-	<-stopSignalOrTimeout(stopSignal, c20Watchdog)
+	<-stopSignalOrTimeout(stopSignal, 2*c20Watchdog)
 	watch := time.After(wd)
 	stopState, serveState := "hung", "hung"
 	var stopErr, serveErr error
@@ -509,7 +626,12 @@ func c20Execute(cfg c20Cfg) c20Result {
 	if serveState == "hung" {
 		complaints = append(complaints, fmt.Sprintf("Serve did not return within %v", wd))
 	}
-	if stopErr != nil {
+	if stopState == "returned" { // (Stop was called, so the injector exists)
+		<-asyncInjected
+	}
+	isFaulted := atomic.LoadInt32(&faulted) == 1
+	if stopErr != nil && !(isFaulted && cfg.faultStep() != 5) {
+		// the drain can only fail when the connection was hit before or while it ran
 		complaints = append(complaints, "Stop returned "+stopErr.Error())
 	}
 	if serveErr != nil {
@@ -517,7 +639,7 @@ func c20Execute(cfg c20Cfg) c20Result {
 	}
 	select {
 	case e := <-pubDone:
-		if e != nil {
+		if e != nil && !(fk == 'b' && atomic.LoadInt32(&faulted) == 1) {
 			return fail("publish: " + e.Error())
 		}
 	case <-time.After(wd + 2*time.Second):
@@ -525,7 +647,7 @@ func c20Execute(cfg c20Cfg) c20Result {
 	}
 	select {
 	case e := <-pub2Done:
-		if e != nil {
+		if e != nil && !(fk == 'b' && atomic.LoadInt32(&faulted) == 1) {
 			return fail("second publisher: " + e.Error())
 		}
 	case <-time.After(wd + 2*time.Second):
@@ -541,12 +663,19 @@ func c20Execute(cfg c20Cfg) c20Result {
 		}
 		return int64(k)
 	}
-	sconn.Flush()
-	deadline = time.Now().Add(2 * time.Second)
-	for atomic.LoadInt64(&gotReplies) < expectReplies() && time.Now().Before(deadline) {
-		time.Sleep(200 * time.Microsecond)
+	isFaulted = atomic.LoadInt32(&faulted) == 1 // (an asynchronous fault may have come after Stop and Serve returned)
+	connLost := isFaulted && (fk == 'c' || fk == 'b') // replies cannot be demanded of a connection that is gone
+	if !connLost {
+		sconn.FlushTimeout(c20StallFor + 2*time.Second)
+		deadline = time.Now().Add(20 * time.Second)
+		if fk == 's' {
+			deadline = time.Now().Add(c20StallFor + 20*time.Second)
+		}
+		for atomic.LoadInt64(&gotReplies) < expectReplies() && time.Now().Before(deadline) {
+			time.Sleep(200 * time.Microsecond)
+		}
+		cconn.Flush()
 	}
-	cconn.Flush()
 	time.Sleep(3 * time.Millisecond) // anything processed or answered late would show up here
 
 	// ---------- the oracle ----------
@@ -558,16 +687,38 @@ func c20Execute(cfg c20Cfg) c20Result {
 		}
 		return -1
 	}
-	sc, sr, vr := at("SC"), at("SR"), at("VR")
+	sc, sr, vr, fp := at("SC"), at("SR"), at("VR"), at("FC")
+	stopOK := sr >= 0 // Stop returned nil: the drain succeeded
+	if sr < 0 {
+		sr = at("SRE")
+	}
 	for _, t := range run.dupTok {
 		complaints = append(complaints, "event "+t+" happened more than once")
 	}
 	complaints = append(complaints, run.badReply...)
-	nE, nD, nP, nProc, nRep := 0, 0, 0, 0, 0
+	// The property under faults (what is demanded, and what is not):
+	//  * always: nothing is processed twice; Stop and Serve return; the process survives; whatever the
+	//    server took over — the callback reached the send to the work queue (E) — before Stop() was
+	//    called is processed exactly once and finished when Serve returns;
+	//  * requests only known to have reached the BROKER before Stop (flushed) must be processed only if
+	//    the drain was not disturbed (no fault, or the fault came after Stop had its result): a
+	//    connection that dies takes the messages nats.go had not yet handed to the callback with it;
+	//  * replies must reach the caller unless the connection was lost (closed / broker gone); after a
+	//    stall that recovers they must;
+	//  * "nothing published after Stop returned is accepted" is demanded when Stop returned nil;
+	//  * a request may be turned away by the handler (X) only when a fault was injected, after Stop() was
+	//    called, and never one it had taken over. (The drain can fail — or, worse, "succeed" although the
+	//    broker never acted on the UNSUB: a nats-server that is shutting down ignores UNSUB but still answers
+	//    PING — and callbacks keep coming after the queue was closed.)
+	drainUndisturbed := fp < 0 || cfg.faultStep() == 5
+	nE, nD, nP, nProc, nRep, nX := 0, 0, 0, 0, 0, 0
 	for i := 0; i < total; i++ {
-		e, d, p := at("E"+strconv.Itoa(i)), at("D"+strconv.Itoa(i)), at("P"+strconv.Itoa(i))
+		e, d, p, x := at("E"+strconv.Itoa(i)), at("D"+strconv.Itoa(i)), at("P"+strconv.Itoa(i)), at("X"+strconv.Itoa(i))
 		if e >= 0 {
 			nE++
+		}
+		if x >= 0 {
+			nX++
 		}
 		if d >= 0 {
 			nD++
@@ -580,29 +731,41 @@ func c20Execute(cfg c20Cfg) c20Result {
 		if run.procCount[i] > 1 {
 			complaints = append(complaints, fmt.Sprintf("request %d was processed %d times", i, run.procCount[i]))
 		}
-		before := sc >= 0 && ((e >= 0 && e < sc) || (run.pubFlushed[i] >= 0 && run.pubFlushed[i] <= sc))
+		if run.replies[i] > 1 {
+			complaints = append(complaints, fmt.Sprintf("request %d got %d replies", i, run.replies[i]))
+		}
+		if x >= 0 && (fp < 0 || (sc >= 0 && x < sc) || e >= 0) {
+			complaints = append(complaints, fmt.Sprintf("request %d was dropped by the handler (fault: %v, drain failed: %v, taken over: %v)", i, fp >= 0, !stopOK, e >= 0))
+		}
+		before := sc >= 0 && ((e >= 0 && e < sc) || (drainUndisturbed && run.pubFlushed[i] >= 0 && run.pubFlushed[i] <= sc))
 		if before {
 			if run.procCount[i] != 1 {
 				complaints = append(complaints, fmt.Sprintf("request %d was received before Stop was called but processed %d times", i, run.procCount[i]))
 			} else if serveState == "returned" && (p < 0 || p > vr || run.procDoneAt[i] < 0 || run.procDoneAt[i] > vr) {
 				complaints = append(complaints, fmt.Sprintf("request %d was received before Stop was called but its processing had not finished when Serve returned", i))
-			} else if run.replies[i] != 1 {
+			} else if run.replies[i] != 1 && !connLost {
 				complaints = append(complaints, fmt.Sprintf("request %d was received before Stop was called and processed, but the client got %d replies", i, run.replies[i]))
 			}
 		}
 		if run.noResp[i] > 0 && (run.procCount[i] != 0 || e >= 0) {
 			complaints = append(complaints, fmt.Sprintf("request %d had no responders according to the broker but was accepted by the server", i))
 		}
-		after := sr >= 0 && run.pubStart[i] > sr
+		after := stopOK && run.pubStart[i] > sr
 		if after && (run.procCount[i] != 0 || e >= 0) {
 			complaints = append(complaints, fmt.Sprintf("request %d was published after Stop returned and was accepted (callback %v, processed %d times)", i, e >= 0, run.procCount[i]))
 		}
-		if run.replies[i] != run.procCount[i] && run.procCount[i] <= 1 && !(before && run.replies[i] != 1) {
+		if !connLost && run.replies[i] != run.procCount[i] && run.procCount[i] <= 1 && !(before && run.replies[i] != 1) {
 			complaints = append(complaints, fmt.Sprintf("request %d was processed %d times and got %d replies", i, run.procCount[i], run.replies[i]))
 		}
-		if serveState == "returned" && run.procCount[i] > 0 && (run.procDoneAt[i] < 0 || run.procDoneAt[i] > vr) && !before {
+		if connLost && run.replies[i] > run.procCount[i] {
+			complaints = append(complaints, fmt.Sprintf("request %d was processed %d times and got %d replies", i, run.procCount[i], run.replies[i]))
+		}
+		if serveState == "returned" && run.procCount[i] > 0 && (run.procDoneAt[i] < 0 || run.procDoneAt[i] > vr || p < 0 || p > vr) && !before {
 			complaints = append(complaints, fmt.Sprintf("request %d was still being processed when Serve returned", i))
 		}
+	}
+	if connLost {
+		nRep = nP // the observable counts the replies handed to the connection
 	}
 	blocked := false
 	if sc >= 0 {
@@ -619,7 +782,7 @@ func c20Execute(cfg c20Cfg) c20Result {
 	}
 	sort.Strings(complaints)
 	res := c20Result{trace: strings.Join(run.events, ","), blockd: blocked, nE: nE,
-		end: fmt.Sprintf("serve:%s,stop:%s,arrived:%d,processed:%d,replied:%d", serveState, stopState, nE, nProc, nRep)}
+		end: fmt.Sprintf("serve:%s,stop:%s,arrived:%d,processed:%d,replied:%d,dropped:%d", serveState, stopState, nE, nProc, nRep, nX)}
 	if len(complaints) > 0 {
 		res.why = complaints[0]
 		if len(complaints) > 1 {
@@ -628,6 +791,16 @@ func c20Execute(cfg c20Cfg) c20Result {
 	}
 	_, _ = nD, nP
 	return res
+}
+
+// c20Dialer refuses to connect once the broker has been taken away.
+type c20Dialer struct{ gone *int32 }
+
+func (d *c20Dialer) Dial(network, address string) (net.Conn, error) {
+	if atomic.LoadInt32(d.gone) == 1 {
+		return nil, fmt.Errorf("c20: the broker is gone")
+	}
+	return net.DialTimeout(network, address, 10*time.Second)
 }
 
 // stopSignalOrTimeout returns a channel that is closed when Stop was triggered (or after d).
@@ -658,6 +831,25 @@ func c20GenCfg(r *Rng) c20Cfg {
 	c.delayUs = r.Pick(0, 0, 20, 200, 1000, 4000)
 	c.jitUs = r.Pick(0, 0, 0, 100, 1000, 3000)
 	c.pub2 = r.Pick(0, 0, 40, 120, 300)
+	c.fault = "-"
+	// handler outcomes: mostly small replies; a third of the configurations mix in declared exceptions and
+	// errors; one in twelve also one or two replies at the NATS limit (1 MiB on the wire each)
+	c.kinds = make([]byte, n)
+	if r.Chance(33) {
+		for i := range c.kinds {
+			c.kinds[i] = byte(r.Pick('r', 'r', 'r', 'x', 'e'))
+		}
+	}
+	if r.Chance(8) {
+		for k := 0; k < 1+r.Intn(2); k++ {
+			c.kinds[r.Intn(n)] = byte(r.Pick('u', 'a', 'o', 'o'))
+		}
+	}
+	// faults while Stop runs: the application closes the connection / the broker goes away, at each step
+	if r.Chance(25) {
+		c.fault = string([]byte{byte(r.Pick('c', 'c', 'b')), byte('0' + r.Intn(7))})
+		c.pub2 = r.Pick(0, 0, 40)
+	}
 	return c
 }
 
@@ -668,13 +860,22 @@ func c20GenCfg(r *Rng) c20Cfg {
 // (then it is Stop that waits). Returns the configuration and the nominal drain time in seconds.
 func c20SlowCfg(r *Rng, k int) (c20Cfg, int) {
 	mk := func(w, q, n, durMs int) c20Cfg {
-		c := c20Cfg{w: w, q: q, stopPos: n, delayUs: 2000}
+		c := c20Cfg{w: w, q: q, stopPos: n, delayUs: 2000, fault: "-"}
 		for i := 0; i < n; i++ {
 			c.durs = append(c.durs, durMs*10+r.Intn(200)) // + up to 20 ms
 		}
 		return c
 	}
-	switch k % 6 {
+	switch k % 8 {
+	case 6: // the link stalls before conn.Flush: the flush times out after 10 s, the drain fails, the link recovers
+		c := mk(2, 3, 10, 30)
+		c.fault = "s2"
+		c.pub2 = 40
+		return c, 11
+	case 7: // the link stalls before sub.Drain, with slow handlers and a backlog longer than the queue
+		c := mk(1, 2, 8, 200)
+		c.fault = "s1"
+		return c, 11
 	case 0:
 		switch r.Intn(3) {
 		case 0:
@@ -797,7 +998,7 @@ func c20Isolated(cfg c20Cfg) string {
 	defer os.Remove(f.Name())
 	fmt.Fprintln(f, "nsrun1"+strings.TrimPrefix(cfg.line(), "nsrun"))
 	f.Close()
-	wd := 3*c20Watchdog + 30*time.Second
+	wd := 4*c20Watchdog + 60*time.Second
 	for _, d := range cfg.durs {
 		wd += 3 * time.Duration(d) * 100 * time.Microsecond
 	}
@@ -897,6 +1098,14 @@ func c20RunConfigs(n int, gen func(k int) c20Cfg) {
 			if cfg.pub2 > 0 {
 				Stat("second-publisher-across-stop")
 			}
+			if cfg.fault != "-" && cfg.fault != "" {
+				Stat("fault:" + cfg.fault[:1] + ":step" + cfg.fault[1:])
+			}
+			for _, k := range cfg.kinds {
+				if k != 'r' && k != 0 {
+					Stat("handler-outcome:" + string(k))
+				}
+			}
 			switch {
 			case cfg.stopPos == 0:
 				Stat("stop:before-burst")
@@ -941,7 +1150,7 @@ func bucket(n int) string {
 // is replayed: the recorded run is what the real system did).
 func c20Projection(trace string) string {
 	seen := map[string]bool{}
-	nE, nD, nP := 0, 0, 0
+	nE, nD, nP, nX := 0, 0, 0, 0
 	if trace != "." {
 		for _, t := range strings.Split(trace, ",") {
 			if t == "" || seen[t] {
@@ -955,6 +1164,8 @@ func c20Projection(trace string) string {
 				nD++
 			case 'P':
 				nP++
+			case 'X':
+				nX++
 			}
 		}
 	}
@@ -964,7 +1175,11 @@ func c20Projection(trace string) string {
 		}
 		return "hung"
 	}
-	return fmt.Sprintf("serve:%s,stop:%s,arrived:%d,processed:%d,replied:%d", st("VR"), st("SR"), nE, nD, nP)
+	stop := st("SR")
+	if seen["SRE"] {
+		stop = "returned"
+	}
+	return fmt.Sprintf("serve:%s,stop:%s,arrived:%d,processed:%d,replied:%d,dropped:%d", st("VR"), stop, nE, nD, nP, nX)
 }
 
 func init() {
@@ -996,7 +1211,11 @@ func init() {
 			res := c20Execute(cfg)
 			if res.why != "" {
 				OracleFail(c20ClassWhy(res.why), map[string]interface{}{"op": "nsrun", "line": cfg.line(), "got": res.end, "detail": res.why, "trace": clip(res.trace)})
-				return "violated " + strings.Join(strings.Split(res.end, ",")[:2], ","), true // the failure was reported above, with its class
+				parts := strings.Split(res.end, ",")
+				if len(parts) > 2 {
+					parts = parts[:2]
+				}
+				return "violated " + strings.Join(parts, ","), true // the failure was reported above, with its class
 			}
 		}
 		return "ok serve:returned,stop:returned", true
@@ -1017,7 +1236,7 @@ func init() {
 		if n > 60 {
 			n = 60
 		}
-		cfg := c20Cfg{w: w, q: q, stopPos: n / 2, gapUs: 0}
+		cfg := c20Cfg{w: w, q: q, stopPos: n / 2, gapUs: 0, fault: "-"}
 		for i := 0; i < n; i++ {
 			cfg.durs = append(cfg.durs, (i*7)%20)
 		}
